@@ -11,7 +11,7 @@ from vf.harness import H, mk
 EXPLANATION = (
     "The string-hash seed is modelled as an ORDER ORACLE: in every statham module the builtin name `set` is replaced by an "
     "insertion-ordered set model whose iteration order is a permutation chosen by symbolic integers (one oracle = one process; the "
-    "i-th iteration uses permutation index ka + i*kb). For each document, z3 must show that generated Python text, JSON "
+    "i-th iteration uses permutation index ka + i*kb). The builtin `hash` is replaced likewise by a salted model (one salt per oracle). For each document, z3 must show that generated Python text, JSON "
     "serialization and class names are equal under two independent oracles. An AST scan of the current /repo/statham sources lists "
     "every set-valued expression and checks that it is reached by the shim (a builtin `set(...)` call / `set.union`) - set literals, "
     "set comprehensions and frozenset, which the shim cannot reach, must be in order-insensitive contexts or the run reports a "
@@ -58,6 +58,8 @@ DOCS = {
         "any": {"allOf": [{}], "default": []}, "s": {"oneOf": [{"type": "string"}], "default": "x"}, "i": {"allOf": [{"type": "integer"}], "default": 0}}},
     "plain_simple_types": {"type": "object", "title": "Plain", "properties": {"a": {"type": "boolean"}, "b": {"type": "null"}, "c": {}, "d": {"type": "string"}, "e": {"type": "integer"},
                            "f": {"allOf": [{}]}, "g": {"type": "array", "items": {"type": "boolean"}}}},
+    "unnamed_characters": {"type": "object", "title": "Root", "properties": {"flag\u0001set": {"type": "integer"}, "\ue000": {"type": "string"}, "a\uffffb": {}},
+                           "required": ["x\u0002", "flag\u0001set"], "patternProperties": {"\u0003": {"type": "null"}}},
     "unsupported_message": {"type": "object", "title": "Root", "if": {}, "then": {}, "else": {}},
 }
 
@@ -79,8 +81,20 @@ def permute(items, idx):
     return out
 
 
+HASH_SALT = [0]
+
+
+def _oracle_hash(x):
+    """model of the per-process salted hash of str/bytes (other types hash as usual)"""
+    import builtins
+
+    if isinstance(x, (str, bytes)):
+        return builtins.hash((HASH_SALT[0], x)) if HASH_SALT[0] else builtins.hash(x)
+    return builtins.hash(x)
+
+
 def shim_all():
-    """replace the builtin name `set` in every loaded statham module by the ordered-set model"""
+    """replace the builtin names `set` and `hash` in every loaded statham module by the oracle models"""
     from vf import prelude
 
     shim = prelude._SetShim()
@@ -88,6 +102,7 @@ def shim_all():
         if name == "statham" or name.startswith("statham."):
             if mod is not None:
                 mod.set = shim
+                mod.hash = _oracle_hash
 
 
 def generate(doc):
@@ -111,10 +126,12 @@ def under_oracle(doc, ka, kb):
         return permute(items, kb if len(items) == 2 else ka)
 
     OrderedSet.order_hook = hook
+    HASH_SALT[0] = 1 + 13 * ka + kb  # one oracle = one hash salt as well
     try:
         return generate(doc)
     finally:
         OrderedSet.order_hook = None
+        HASH_SALT[0] = 0
 
 
 def real_outputs(doc, seeds):
@@ -294,7 +311,7 @@ def harnesses(ctx) -> List[H]:
     pre = ["0 <= ka1 < 12", "0 <= kb1 < 2", "0 <= ka2 < 12", "0 <= kb2 < 2"]
     for name in DOCS:
         hs.append(mk(f"c09_{name}", "ka1: int, kb1: int, ka2: int, kb2: int", pre, f"return deterministic({name!r}, ka1, kb1, ka2, kb2)", timeout=400, group="oracle",
-                     tier="quick" if name in ("same_title_two_keywords", "definitions", "imports_many_kinds", "undeclared_required_and_sets", "many_schema_dependencies", "single_branch_defaults") else "thorough",
+                     tier="quick" if name in ("same_title_two_keywords", "definitions", "imports_many_kinds", "undeclared_required_and_sets", "many_schema_dependencies", "single_branch_defaults", "unnamed_characters") else "thorough",
                      covers=f"document {name}: outputs equal under two symbolic set-order oracles"))
     nd = len(DOCS)
     hs.append(mk("c09_history_independent", "i: int, j: int", [f"0 <= i < {nd}", f"0 <= j < {nd}"], "return history_independent(i, j)", timeout=300, group="history",
